@@ -1411,7 +1411,20 @@ func ruleDeletionMarkPersisted(r *Run) {
 						saved = true
 					}
 				}
-				r.check(saved, fmt.Sprintf("%s:background-deletion#%d:mark-saved-first", fname(f), k), "the repo is saved between the setting of the mark and the start of the deletion",
+				// a deletion resumed from the store: the mark was not set here but read — the goroutine starts
+				// only on the true edge of IsDeleted() — so it is in the store already
+				if mark == nil {
+					for _, b2 := range f.Blocks {
+						ifi, isIf := b2.Instrs[len(b2.Instrs)-1].(*ssa.If)
+						if !isIf {
+							continue
+						}
+						if c, isCall := ifi.Cond.(*ssa.Call); isCall && methodNameOf(c) == "IsDeleted" && guardedByEdge(ifi, 0, g) {
+							saved = true
+						}
+					}
+				}
+				r.check(saved, fmt.Sprintf("%s:background-deletion#%d:mark-saved-first", fname(f), k), "the repo is saved between the setting of the mark and the start of the deletion (or the mark was read from the loaded repo)",
 					"the background deletion of an instance starts before the repo, with the instance marked as deleted, has been saved: a crash while its key-values are being removed leaves an instance that the next start loads as live", w.pos(g.Pos()))
 			}
 		}
